@@ -35,7 +35,7 @@ NEEDS = {
  "C09-mls-already-indented-early-return": ("multi-line literal already at its target indentation whose interior terminators differ from the configured line ending: early `return None`", "C12/M1c.lf_to_crlf_tabs, M1c.crlf_to_lf (shared into C09)", "—"),
  "C13-avx2-del-folded": ("DEL (0x7F) after identifier characters within a full 32-byte AVX2 window (case folding maps DEL onto `_`)", "C13/V1 (every instance)", "the SMT lane translator (V3) *refuses* the re-shaped code (UNDECIDED) rather than guessing; V1 decides"),
  "C15-unsorted-cursors-early-break": ("cursor list not in ascending order (`--cursor 7,0`): token walk stops once the *last* cursor is attached", "C15/A2.pair_list1_5_1, _7_0, list3_8_2, list4_14_1", "**missed at first** (every harness used one cursor): A2/B2 and the two-cursor hooks written because of this seed"),
- "C17-replacement-char-rejected": ("well-formed input containing U+FFFD: `decode_file` takes the character for a decoding error and refuses the file", "C17/U2 (UNDECIDED)", "**missed at first** (payload alphabet was ASCII; U2 was thorough-only). U2 instances with an arbitrary 3-byte scalar were written and U2 moved into the quick tier; with the change applied the new `str::contains(char)` (core's `simd_contains`) exhausts 10 GB, so the check ends UNDECIDED (exit 2) -- an alarm, not a decided violation"),
+ "C17-replacement-char-rejected": ("well-formed input containing U+FFFD: `decode_file` takes the character for a decoding error and refuses the file", "C17/U2 (UNDECIDED)", "**missed at first** (payload alphabet was ASCII; U2 was thorough-only). U2 instances with an arbitrary 3-byte scalar were written and U2 moved into the quick tier; with the change applied the new `str::contains(char)` (core's two-way searcher) and the now reachable `bail!` path (anyhow + backtrace capture) exhaust 10 GB, so the check ends UNDECIDED (exit 2) -- an alarm, not a decided violation; models of `simd_contains` and `Backtrace::capture` were tried in a scratch copy and did not bring it within reach (20 min, no verdict)"),
  "C17-double-bom": ("input starting with BOM + U+FEFF: second BOM stripped by `decode_with_bom_removal`", "C17/U2", "U2 written (with contract models of the library decoders) because of this seed"),
 }
 rows = ["| seeded change | what it needs to manifest | caught by | verdict of the check with the change applied | notes |", "|---|---|---|---|---|"]
